@@ -30,7 +30,7 @@ fn parse_change(s: &str) -> Option<TextDocumentContentChangeEvent> {
     }
 }
 
-/// history tokens: `O<u>=<hextext>`  `C<u>=<chg>,<chg>`  `X<u>`  `P<u>` (text probe)  `F<u>` (folding ranges)
+/// history tokens: `O<u>=<hextext>`  `C<u>=<chg>,<chg>`  `X<u>`  `P<u>` (text probe)  `F<u>` (folding ranges)  `M<u>` (formatting)  `H<u>` (hover at 0:6)
 pub fn seq(diag: bool, tokens: &[&str]) -> Option<String> {
     let rt = tokio::runtime::Builder::new_current_thread().enable_all().build().unwrap();
     rt.block_on(async move {
@@ -79,6 +79,30 @@ pub fn seq(diag: bool, tokens: &[&str]) -> Option<String> {
                         text_document: TextDocumentIdentifier { uri: uri(u) },
                         work_done_progress_params: Default::default(),
                         partial_result_params: Default::default(),
+                    }).await;
+                    match r {
+                        Ok(v) => events.push(json!({"r": v})),
+                        Err(_) => return Some("PANIC broker-died".to_string()),
+                    }
+                }
+                'M' => {
+                    let r = features::format(doctx.clone(), DocumentFormattingParams {
+                        text_document: TextDocumentIdentifier { uri: uri(u) },
+                        options: FormattingOptions { tab_size: 4, insert_spaces: true, ..Default::default() },
+                        work_done_progress_params: Default::default(),
+                    }).await;
+                    match r {
+                        Ok(v) => events.push(json!({"r": v})),
+                        Err(_) => return Some("PANIC broker-died".to_string()),
+                    }
+                }
+                'H' => {
+                    let r = features::hover(doctx.clone(), HoverParams {
+                        text_document_position_params: TextDocumentPositionParams {
+                            text_document: TextDocumentIdentifier { uri: uri(u) },
+                            position: Position { line: 0, character: 6 },
+                        },
+                        work_done_progress_params: Default::default(),
                     }).await;
                     match r {
                         Ok(v) => events.push(json!({"r": v})),
